@@ -15,7 +15,8 @@ import sys
 from pathlib import Path
 
 VERIF = Path(__file__).resolve().parent.parent
-SEED = Path("/var/tmp/seed")
+SEED = Path(os.environ.get("SEED_ROOT", "/var/tmp/seed"))
+OFFSET = int(os.environ.get("SEED_OFFSET", "0"))
 SCRATCH = Path("/var/tmp/seed-eval")
 ALL = [f"C{i:02d}" for i in range(1, 19)]
 
@@ -100,7 +101,7 @@ def keep(pid: str) -> None:
     for k, p in patches(pid):
         d = demo_of(pid, k)
         m = SEED / pid / ".seed_out" / f"meta{k}.json"
-        dst = VERIF / "seeded" / pid / str(k)
+        dst = VERIF / "seeded" / pid / str(k + OFFSET)
         dst.mkdir(parents=True, exist_ok=True)
         shutil.copy(p, dst / "patch.diff")
         if d:
